@@ -456,7 +456,9 @@ func (p *P) Run(src *tape.Source, trace bool) *core.Result {
 	r.LogHash = s.SchedHash ^ src.Hash()
 	for t := range work {
 		for _, c := range work[t] {
-			r.LogHash = r.LogHash*1099511628211 ^ canon.Hash(c.conc)
+			if c.op.Kind.Compared() && !excluded[c] { // observers of counters and map-ordered reports are not functions of the input
+				r.LogHash = r.LogHash*1099511628211 ^ canon.Hash(c.conc)
+			}
 		}
 	}
 	return r
